@@ -28,7 +28,7 @@ import os
 import sys
 
 from . import tables
-from .common import Check, Err, Raw, SRC, cN, cZ, cbool, clist, cnat, copt, cpair, cstr, cval, impl_call
+from .common import Check, Err, Raw, SRC, cN, cZ, cbool, clist, cnat, copt, cpair, cstr, cval, impl_call, shrink_list
 from .tables import TableError
 
 IMPORTS = ("From Coq Require Import List NArith ZArith Bool.\n"
@@ -302,7 +302,7 @@ class _Impl:
         self.kcls = {0: fs.fsFile, 1: fs.fsDir, 2: fs.fsLink, 3: fs.fsDev, 4: fs.fsFifo}
         self.DS = [data_source("d%d" % i) for i in range(4)]
         self.CH = [{"size": i} for i in range(3)]
-        self.TARGETS = ["a", "../b", "/abs/c", "d -> e"]
+        self.TARGETS = ["a", "../b", "/abs/c", "d -> e", "100%", "%s/%(x)s", "{0}", "caf\u00e9"]
         self.rest_ids = {}
 
     # ---- ids
@@ -361,33 +361,62 @@ class _Impl:
             return [2, 0]
         return [9, 0]
 
-    # ---- the real engine
-    def engine_run(self, mode, objs):
-        """install/replace MergeEngine over a package whose contents are objs; runs pre_merge();
-        returns (entries of engine.csets['new_cset'] in order, warnings)."""
+    # ---- observers that really format (as pmerge's do): operations.observer._convert runs
+    #      `msg % args` for every message with arguments; null_output (and a stub) never would
+    def make_observer(self, kind):
+        """kind 'file': repo_observer(file_handle_output(sink)); 'fmt': repo_observer(formatter_output(
+        formatter)).  Returns (observer, msgs) where msgs collects (level, text) per message."""
         obsmod = self.observer
         msgs = []
+        if kind == "file":
+            class Sink:
+                def write(self, text):
+                    for lvl in ("warning", "error", "info", "debug"):
+                        if text.startswith(lvl + ": "):
+                            msgs.append((lvl, text[len(lvl) + 2:].rstrip("\n")))
+                            return
+                    msgs.append(("write", text))
 
-        class Out(obsmod.null_output):
-            def warn(self, msg, *a, **kw):
-                msgs.append(msg if not a else msg % a)
+                def flush(self):
+                    pass
+            return obsmod.repo_observer(obsmod.file_handle_output(Sink())), msgs
 
-            def error(self, msg, *a, **kw):
-                msgs.append("error: " + msg)
+        class Formatter:          # the part of snakeoil.formatters.Formatter that formatter_output uses
+            bold, reset, verbosity = "<b>", "<r>", 0
 
+            def fg(self, colour=None):
+                return f"<{colour}>"
+
+            def write(self, *args, prefixes=(), autoline=True, **kw):
+                lvl = {"<yellow>": "warning", "<red>": "error", "<green>": "info"}.get(prefixes[0] if prefixes else "", "write")
+                msgs.append((lvl, "".join(str(a) for a in args)))
+
+            def flush(self):
+                pass
+        return obsmod.repo_observer(obsmod.formatter_output(Formatter())), msgs
+
+    @staticmethod
+    def reported(msgs):
+        """the messages the model speaks about: warnings and errors (info/debug chatter is not modelled)"""
+        return [("error: " + t) if lvl == "error" else t for lvl, t in msgs if lvl in ("warning", "error")]
+
+    # ---- the real engine
+    def engine_run(self, mode, objs, obs_kind="file"):
+        """install/replace MergeEngine over a package whose contents are objs; runs pre_merge();
+        returns (entries of engine.csets['new_cset'] in order, warnings)."""
         class Pkg:
             def __init__(self, cs):
                 self.contents = cs
 
         cs = self.contents.contentsSet(objs)
-        obs = obsmod.repo_observer(Out())
+        obs, msgs = self.make_observer(obs_kind)
         if mode == self.const.INSTALL_MODE:
             e = self.engine.MergeEngine.install(self.tmp, Pkg(cs), offset=self.root, observer=obs)
         else:
             e = self.engine.MergeEngine.replace(self.tmp, Pkg(self.contents.contentsSet()), Pkg(cs),
                                                 offset=self.root, observer=obs)
         e.pre_merge()
-        return list(e.csets["new_cset"]), msgs
+        return list(e.csets["new_cset"]), self.reported(msgs)
 
     def strip(self, loc):
         return loc[len(self.root):] if loc.startswith(self.root + "/") else loc
@@ -445,7 +474,12 @@ def oracle(inp, out, wf):
 
 # =========================================================================== generators
 PATHS = ["/usr", "/usr/bin", "/usr/bin/su", "/usr/lib64/x.so", "/etc/conf", "/var/tmp", "/tmp", "/dev/null",
-         "/run/f", "/usr/bin/passwd", "/opt/a b", "/usr/share/doc/x -> y", "/srv", "/bin/ls", "/home/u/.x", "/sbin/i"]
+         "/run/f", "/usr/bin/passwd", "/opt/a b", "/usr/share/doc/x -> y", "/srv", "/bin/ls", "/home/u/.x", "/sbin/i",
+         # names that are hostile to message formatting / encoding / globbing done on the way
+         "/usr/share/doc/100%_coverage.html", "/srv/a%20b.png", "/etc/%s.tmpl", "/opt/%(name)s", "/usr/share/50%",
+         "/tmp/%%d %i", "/var/{0}/{x}", "/usr/share/caf\u00e9/\u00fc", "/usr/lib/a\\b", "/usr/bin/[", "/opt/$HOME `x`",
+         "/usr/lib/'q\"", "/usr/share/*?", "/usr/lib/" + "long" * 60] + ["/usr/lib/pkg/f%02d" % i for i in range(14)]
+HOSTILE = range(16, 30)
 TYPEBITS = {0: (0, 0o100000), 1: (0, 0o40000), 2: (0, 0o120000), 3: (0o20000, 0o60000), 4: (0, 0o10000)}
 
 
@@ -460,17 +494,20 @@ def gen_mode(rng, kind):
 
 
 def gen_owner(rng, build, other):
-    return rng.choice((build, build, 0, 0, other, rng.randrange(1, 70000)))
+    return rng.choice((build, build, 0, 0, other, rng.randrange(1, 70000), 65534, 2 ** 31 - 1, 2 ** 32 - 2))
 
 
 def gen_cset(rng, malformed):
-    n = rng.choice((0, 1, 2, 3, 4, 6, 8, 12))
+    n = rng.choice((0, 1, 2, 3, 4, 6, 8, 12, 12, 20))
     paths = rng.sample(PATHS, min(n, len(PATHS)))
+    if paths and rng.random() < 0.5:      # make sure names of the hostile class take part often
+        paths[rng.randrange(len(paths))] = PATHS[rng.choice(HOSTILE)]
+        paths = list(dict.fromkeys(paths))
     specs = []
     for p in paths:
         k = rng.choice((0, 0, 0, 1, 1, 2, 3, 4))
         s = dict(kind=k, path=p, mode=gen_mode(rng, k), uid=gen_owner(rng, BUILD_UID, OTHER_UID),
-                 gid=gen_owner(rng, BUILD_GID, OTHER_GID), target=rng.randrange(4), data=rng.randrange(4),
+                 gid=gen_owner(rng, BUILD_GID, OTHER_GID), target=rng.randrange(8), data=rng.randrange(4),
                  mtime=rng.choice((0, 5, 1700000000)), extra=rng.randrange(5))
         specs.append(s)
     if malformed and specs:
@@ -541,14 +578,14 @@ def main(chk: Check):
                              "input": {"engine": "MergeEngine.install", "pre_merge triggers": inst}})
 
     # ---- pre / bad streams through the real engine
-    def engine_case(specs, mode):
+    def engine_case(specs, mode, obs_kind="file"):
         pathid = {p: i for i, p in enumerate(PATHS)}
         locid = lambda loc: pathid.get(impl.strip(loc), 9999)  # noqa: E731
         objs = [impl.make(s) for s in specs]
         inp = [impl.canon(o, lambda loc: pathid.get(loc, 9999)) for o in objs]
 
         def run():
-            out, msgs = impl.engine_run(mode, objs)
+            out, msgs = impl.engine_run(mode, objs, obs_kind)
             return [[impl.canon(o, locid) for o in out], [impl.canon_warn(m, locid) for m in msgs]]
         res = impl_call(run)
         return inp, res
@@ -564,21 +601,33 @@ def main(chk: Check):
                     corpus.extend(json.load(open(os.path.join(cdir, f))))
         for i in range(n + len(corpus)):
             if i < len(corpus):
-                specs, mode = corpus[i]["entries"], corpus[i].get("mode", 1)
+                specs, mode, okind = corpus[i]["entries"], corpus[i].get("mode", 1), corpus[i].get("observer", "file")
             else:
                 specs = gen_cset(rng, malformed)
                 mode = impl.const.INSTALL_MODE if rng.random() < 0.7 else impl.const.REPLACE_MODE
-            inp, res = engine_case(specs, mode)
+                okind = "file" if rng.random() < 0.6 else "fmt"
+            inp, res = engine_case(specs, mode, okind)
             term = cpair(str(mode), c_cfg, c_entries(inp))
             cases.append((term, res))
             raw.append((mode, inp, res, specs))
             wf = all(e[0] == 2 or e[2] is not None for e in inp)
             if isinstance(res, Err):
-                prop_bad.append({"what": f"pre_merge raised {res.kind}", "input": {"mode": mode, "entries": specs}})
+                prop_bad.append({"what": f"pre_merge raised {res.kind}",
+                                 "input": {"mode": mode, "observer": okind, "entries": specs}})
                 continue
             why = oracle(inp, res[0], wf)
             if why:
-                prop_bad.append({"what": why, "input": {"mode": mode, "entries": specs}, "after": res[0]})
+                if len(prop_bad) < 2:      # minimise the first failures: fewest entries that still fail
+                    def fails(sub):
+                        i2, r2 = engine_case(sub, mode, okind)
+                        return isinstance(r2, Err) or oracle(i2, r2[0], all(e[0] == 2 or e[2] is not None for e in i2)) is not None
+                    specs = shrink_list(specs, fails, 1)
+                    inp, res = engine_case(specs, mode, okind)
+                    why = (f"pre_merge raised {res.kind}" if isinstance(res, Err) else
+                           oracle(inp, res[0], all(e[0] == 2 or e[2] is not None for e in inp))) or why
+                prop_bad.append({"what": why, "input": {"mode": mode, "observer": okind, "entries": specs},
+                                 "after": None if isinstance(res, Err) else res[0],
+                                 "observer messages": None if isinstance(res, Err) else res[1]})
             for a, b in zip(inp, res[0]):
                 if a != b or (isinstance(a[2], int) and a[0] != 2 and (a[2] & 0o6002)):
                     chk.nontrivial((name,) + classify(a))
@@ -587,22 +636,15 @@ def main(chk: Check):
             chk.sample({"stream": name, "mode": raw[-1][0], "entries": raw[-1][1], "impl": raw[-1][2]})
         return cases
 
-    pre_cases = stream("pre", budget(300, 2400), False)
-    bad_cases = stream("bad", budget(90, 800), True)
+    pre_cases = stream("pre", budget(240, 2400), False)
+    bad_cases = stream("bad", budget(80, 800), True)
 
     lap('pre/bad streams done')
     # ---- direct stream: trigger classes with explicit arguments, minimal engine
     T = impl.triggers
     direct_cases = []
 
-    class Rep:
-        def __init__(self):
-            self.msgs = []
-
-        def warn(self, msg, *a, **kw):
-            self.msgs.append(msg)
-
-    for _ in range(budget(180, 1500)):
+    for _ in range(budget(150, 1500)):
         specs = gen_cset(rng, rng.random() < 0.25)
         pathid = {p: i for i, p in enumerate(PATHS)}
         locid = lambda loc: pathid.get(loc, 9999)  # noqa: E731
@@ -620,14 +662,29 @@ def main(chk: Check):
         else:
             fp = which == 4
             trig, term = T.detect_world_writable(fix_perms=fp), f"DetectWW {cbool(fp)}"
-        rep = Rep() if obs else None
+        okind = "file" if rng.random() < 0.6 else "fmt"
+        rep, rmsgs = impl.make_observer(okind) if obs else (None, [])
         eng = type("Engine", (), {"observer": rep, "mode": impl.const.INSTALL_MODE, "offset": "/"})()
 
         def run():
             cs = impl.contents.contentsSet(objs)
             trig(eng, {"new_cset": cs})     # base.__call__, as MergeEngine.execute_hook calls it
-            return [[impl.canon(o, locid) for o in cs], [impl.canon_warn(m, locid) for m in (rep.msgs if rep else [])]]
+            return [[impl.canon(o, locid) for o in cs], [impl.canon_warn(m, locid) for m in impl.reported(rmsgs)]]
         res = impl_call(run)
+        # the triggers' own contract, judged directly (B): re-owning never fails and maps bad -> good only
+        dwhat = None
+        wf_d = all(e[0] == 2 or e[2] is not None for e in inp)
+        if isinstance(res, Err):
+            if which in (0, 1) or wf_d:
+                dwhat = f"{type(trig).__name__}.trigger raised {res.kind}"
+        elif which in (0, 1):
+            col = 3 if which == 0 else 4
+            exp = [e[:col] + [good if e[col] == bad else e[col]] + e[col + 1:] for e in inp]
+            if exp != res[0]:
+                dwhat = f"{type(trig).__name__}({bad}, {good}) did not map exactly the entries owned by {bad} to {good}"
+        if dwhat:
+            prop_bad.append({"what": dwhat, "input": {"trigger": term, "observer": okind if obs else None, "entries": specs},
+                             "after": None if isinstance(res, Err) else res[0]})
         direct_cases.append((cpair(cbool(obs), f"({term})", c_entries(inp)), res))
         chk.nontrivial(("direct", which, obs, isinstance(res, Err), tuple(sorted(set(classify(e)[2:] for e in inp)))[:3]))
     chk.count("direct", len(direct_cases))
@@ -649,10 +706,11 @@ def main(chk: Check):
                         combos.append((k, u, g, TYPEBITS[k][1]))
     sweep_cases, tabs, n_sweep = [], {}, 0
     for k, u, g, hi in combos:
-        specs = [dict(kind=k, path="/s/%d" % (hi | p), mode=hi | p, uid=u, gid=g, target=1, data=1, mtime=0, extra=0)
+        sdir = "/s" if (k + u + g) % 2 else "/s/50%_off %s {0}"
+        specs = [dict(kind=k, path="%s/%d" % (sdir, hi | p), mode=hi | p, uid=u, gid=g, target=1, data=1, mtime=0, extra=0)
                  for p in range(4096)]
         objs = [impl.make(s) for s in specs]
-        what = {"kind": KINDS[k], "uid": u, "gid": g, "modes": "0o%o | 0..0o7777" % hi}
+        what = {"kind": KINDS[k], "uid": u, "gid": g, "modes": "0o%o | 0..0o7777" % hi, "directory": sdir}
         res = impl_call(lambda: impl.engine_run(impl.const.INSTALL_MODE, objs))
         if isinstance(res, Err):
             prop_bad.append({"what": f"pre_merge raised {res.kind}", "input": what})
@@ -742,7 +800,7 @@ def replay(chk: Check, data):
     locid = lambda loc: paths.index(impl.strip(loc)) if impl.strip(loc) in paths else 9999  # noqa: E731
 
     def run():
-        out, msgs = impl.engine_run(mode, objs)
+        out, msgs = impl.engine_run(mode, objs, inp_d.get("observer") or "file")
         return [[impl.canon(o, locid) for o in out], [impl.canon_warn(m, locid) for m in msgs]]
     res = impl_call(run)
     print("implementation:", res)
